@@ -30,8 +30,13 @@ def main():
         driver.log('%s tier=%s: %d harness cases, %d obligations, %d discharged, %d violations, %d engine errors, %d notes, %.1fs'
                    % (pid, args.tier, len(ctx.results), len(obs), n_ok, len(ctx.violations), len(errs), len(ctx.notes),
                       time.time() - ctx.t0))
-        for n in ctx.notes[:40]:
-            driver.log('  note:', n[:500])
+        shown = set()
+        for n in ctx.notes:
+            k = n[:60]
+            if k in shown or len(shown) > 25:
+                continue
+            shown.add(k)
+            driver.log('  note:', n[:400])
     except Exception:
         traceback.print_exc()
         driver.log('CHECK-ERROR (not a violation): the check itself failed')
